@@ -3,8 +3,8 @@
     loop of [visit_op], the single-entry fast path, [flush_commits]) and the iterative
     depth-first sort of core/src/dag_walk.rs that [visit_op] calls.  Operations are given in
     the order [op_walk::walk_ancestors] yields them (newest first). *)
-From Coq Require Import Relations.
-From Verif Require Import Base.Prelude Model.C46 Proofs.C46Scan Proofs.C46Topo Proofs.C46.
+From Coq Require Import Relations Lia.
+From Verif Require Import Base.Prelude Model.C46 Proofs.C46Scan Proofs.C46Topo Proofs.C46 Proofs.C46Gen.
 
 (** The walk never runs out of the fuel the model gives its two loops, for ANY list of
     operations and any predecessor maps (cyclic, duplicated, dangling): it ends with
@@ -150,6 +150,48 @@ Proof.
   - intros H. apply nodupb_spec in H. vm_compute in H. discriminate.
 Qed.
 
+(** ** Histories produced by the transaction layer.
+    [gen E ops] (Proofs/C46Gen.v): operations appended in creation order, each started from
+    earlier operations (one parent for an ordinary transaction, several for a reconciliation
+    by [merge_operations]); its map records only commits that are new — to the repository, as
+    [CommitBuilder::write] checks, and to concurrent operations, by the content-hash
+    assumption — with predecessors the repository already had ([E] = commits recorded by no
+    operation, e.g. imported from Git).  [walk_ok ops w]: [w] lists operations so that none
+    comes after one of its descendants, as [walk_ancestors] does.  Such histories are [WF]. *)
+Theorem C46_generated_wf : forall (E : N -> Prop) ops w,
+  gen E ops -> walk_ok ops w -> WF (map (hmap ops) w).
+Proof. exact gen_WF. Qed.
+
+(** So for EVERY history the transaction layer can produce, every admissible walk order and
+    every start set, the evolution walk ends without error and lists exactly the reachable
+    commits, each once, each before the predecessors its operation recorded. *)
+Theorem C46_generated : forall (E : N -> Prop) ops w start,
+  gen E ops -> walk_ok ops w ->
+  let ms := map (hmap ops) w in
+  exists out,
+    walk_predecessors (map Some ms) start = (out, Done)
+    /\ (forall x, In x (map fst out) <-> greach_from ms start x)
+    /\ NoDup (map fst out)
+    /\ (forall l1 c j l2, out = l1 ++ (c, Some j) :: l2 ->
+         exists m', nth_error ms (N.to_nat j) = Some m' /\ is_key m' c = true
+                    /\ forall p, In p (nbrs m' c) -> In p (map fst l2) /\ ~ In p (map fst l1)).
+Proof.
+  intros E ops w start Hg Hw ms.
+  assert (W : WF ms) by (now apply (gen_WF E)).
+  destruct (walk_predecessors (map Some ms) start) as [out st] eqn:Ew. exists out.
+  assert (st = Done) as ->.
+  { change st with (snd (out, st)). rewrite <- Ew. unfold ms. rewrite map_map.
+    now apply (gen_done E). }
+  split; [reflexivity|].
+  assert (Hp : some_prefix (map Some ms) = ms) by apply some_prefix_map_Some.
+  pose proof (C46_complete_once (map Some ms) start out) as H1. cbv zeta in H1. rewrite Hp in H1.
+  destruct (H1 W Ew) as (Hc & Hn & _ & _).
+  split; [assumption|]. split; [assumption|].
+  intros l1 c j l2 Eo.
+  pose proof (C46_topological (map Some ms) start out) as H2. cbv zeta in H2. rewrite Hp in H2.
+  exact (H2 W Ew l1 c j l2 Eo).
+Qed.
+
 Check C46_terminates : forall ops start, snd (walk_predecessors ops start) <> OutOfFuel.
 Check C46_complete_once.
 Check C46_topological.
@@ -167,8 +209,59 @@ Example C46_nonvacuous :
      = ([(3, Some 0); (9, None)]%N, Done).
 Proof. vm_compute. repeat split. Qed.
 
+(** Non-vacuity of [gen]: commit 1 created, rewritten concurrently into 2 and 3 by two
+    operations started from the same one, and a reconciling operation with both as parents
+    that records 4 as a rewrite of 3; both admissible walk orders are accepted. *)
+Example C46_gen_nonvacuous :
+  let ops := [mk_hop [] [(1, [])]%N; mk_hop [0%nat] [(2, [1])]%N; mk_hop [0%nat] [(3, [1])]%N;
+              mk_hop [1%nat; 2%nat] [(4, [3])]%N] in
+  gen (fun _ => False) ops /\ walk_ok ops [3; 1; 2; 0]%nat /\ walk_ok ops [3; 2; 1; 0]%nat.
+Proof.
+  set (E := fun _ : N => False).
+  set (h0 := mk_hop [] [(1, [])]%N). set (h1 := mk_hop [0%nat] [(2, [1])]%N).
+  set (h2 := mk_hop [0%nat] [(3, [1])]%N). set (h3 := mk_hop [1%nat; 2%nat] [(4, [3])]%N).
+  assert (Hfresh : forall (ops : list hop) c,
+            (forall o, In o ops -> is_key (h_map o) c = false) ->
+            forall i, is_key (hmap ops i) c = false).
+  { intros ops c H i. unfold hmap. destruct (nth_error ops i) eqn:En; [|reflexivity].
+    apply H. eapply nth_error_In; eauto. }
+  assert (G0 : gen E [h0]).
+  { apply (gen_snoc E [] [] [(1, [])]%N); [constructor|intros p []|].
+    apply vt_cons; [constructor|unfold E; tauto| |reflexivity|intros p []].
+    apply Hfresh. intros o []. }
+  assert (G1 : gen E [h0; h1]).
+  { apply (gen_snoc E [h0] [0%nat] [(2, [1])]%N G0); [intros p [<-|[]]; cbn; lia|].
+    apply vt_cons; [constructor|unfold E; tauto| |reflexivity|].
+    - apply Hfresh. intros o [<-|[]]. reflexivity.
+    - intros p [<-|[]]. left. right. exists 0%nat, 0%nat. repeat split; [now left|constructor]. }
+  assert (G2 : gen E [h0; h1; h2]).
+  { apply (gen_snoc E [h0; h1] [0%nat] [(3, [1])]%N G1); [intros p [<-|[]]; cbn; lia|].
+    apply vt_cons; [constructor|unfold E; tauto| |reflexivity|].
+    - apply Hfresh. intros o [<-|[<-|[]]]; reflexivity.
+    - intros p [<-|[]]. left. right. exists 0%nat, 0%nat. repeat split; [now left|constructor]. }
+  assert (G3 : gen E [h0; h1; h2; h3]).
+  { apply (gen_snoc E [h0; h1; h2] [1%nat; 2%nat] [(4, [3])]%N G2);
+      [intros p [<-|[<-|[]]]; cbn; lia|].
+    apply vt_cons; [constructor|unfold E; tauto| |reflexivity|].
+    - apply Hfresh. intros o [<-|[<-|[<-|[]]]]; reflexivity.
+    - intros p [<-|[]]. left. right. exists 2%nat, 2%nat. repeat split; [right; now left|constructor]. }
+  split; [exact G3|].
+  pose proof (gen_scoped E _ G3) as Hs.
+  assert (Hlt : forall b a, (b < a)%nat -> ~ anc [h0; h1; h2; h3] b a).
+  { intros b a Hba H. apply (anc_le _ _ _ Hs) in H. lia. }
+  assert (H21 : ~ anc [h0; h1; h2; h3] 2 1).
+  { intros H. inversion H as [|? p ? Hp H']; subst. cbn in Hp. destruct Hp as [<-|[]].
+    exact (Hlt 0%nat 1%nat ltac:(lia) H'). }
+  assert (H12 : ~ anc [h0; h1; h2; h3] 1 2) by (apply Hlt; lia).
+  split; cbn; repeat split; try (intros [H|H]; try lia; repeat (destruct H as [H|H]; try lia); fail);
+    try tauto;
+    intros b Hb; repeat (destruct Hb as [<-|Hb]; [try assumption; try (apply Hlt; lia)|]); try contradiction.
+Qed.
+
 Print Assumptions C46_terminates.
 Print Assumptions C46_cycle_sound.
+Print Assumptions C46_generated_wf.
+Print Assumptions C46_generated.
 Print Assumptions C46_complete_once.
 Print Assumptions C46_topological.
 Print Assumptions C46_checker_sound.
